@@ -140,6 +140,8 @@ class Arr:
             return Arr("int64", self.shape, [NAT if (v is None or not -2**63 <= v < 2**63) else v for v in self.flat])
         if self.dtype.kind in "Mm" and dt.name == "int64":
             return Arr("int64", self.shape, self.flat)  # reinterpretation: NaT -> min int64
+        if self.dtype.kind in "Mm" and dt.name == "uint64":
+            return Arr("uint64", self.shape, [v % 2**64 for v in self.flat])  # C cast of the int64 count: negative values wrap
         if self.dtype.kind in "iub" and dt.kind in "iu":
             bits = INT_BITS[dt.name]
             if dt.kind == "i":
@@ -349,6 +351,8 @@ class NP:
             for v in flat:
                 if isinstance(v, bool) or not isinstance(v, int):
                     raise Unsupported("time array from non-int")
+                if not -2**63 <= v < 2**63:
+                    raise OverflowError("Python int too large to convert to C long")
             return Arr(dt, shape, flat)
         if dt.kind in "iu":
             bits = INT_BITS[dt.name]
@@ -400,8 +404,31 @@ def conformance():
                 np.array(["a", "°é"]), np.array([], dtype="float64"), np.array([1, 2], dtype="uint16"), np.array([[1], [2]], dtype="int32")]
     n = 0
     for a in samples:
-        real_enc = ENC.encode_array(a)
-        real_dec = DEC.decode_array(json.loads(json.dumps(ENC.preprocess(real_enc)), object_hook=DEC.postprocess), records_per_chunk=1)
+        # the codec under test may itself fail on a sample (that is for the obligations to find): model and numpy must then fail alike
+        try:
+            real_enc = ENC.encode_array(a)
+            real_dec = DEC.decode_array(json.loads(json.dumps(ENC.preprocess(real_enc)), object_hook=DEC.postprocess), records_per_chunk=1)
+            real_err = None
+        except (OverflowError, ValueError, TypeError) as e:
+            real_err = type(e).__name__
+        if real_err is not None:
+            model = Arr(str(a.dtype), a.shape, (a.astype("int64") if a.dtype.kind in "Mm" else a).ravel().tolist())
+            saved = (ENC.np, DEC.np)
+            ENC.np = DEC.np = NP
+            try:
+                enc = ENC.encode_array(model)
+                DEC.decode_array(dict(enc, data=enc["data"]), records_per_chunk=1)
+                model_err = None
+            except (OverflowError, ValueError, TypeError) as e:
+                model_err = type(e).__name__
+            except Unsupported:
+                model_err = real_err  # outside the model: nothing to compare
+            finally:
+                ENC.np, DEC.np = saved
+            if model_err != real_err:
+                raise AssertionError(f"numpy model mismatch on {a!r}: the real codec raises {real_err}, under the model {model_err}")
+            n += 1
+            continue
         if a.dtype.kind in "Mm":
             model = Arr(str(a.dtype), a.shape, a.astype("int64").ravel().tolist())
         else:
@@ -437,5 +464,17 @@ def conformance():
             mine = (Arr("timedelta64[us]", (2,), [x, NAT]) / NP.timedelta64(1, "us")).astype("int64").flat
             if real_i != mine:
                 raise AssertionError(f"timedelta division model: numpy {real_i} model {mine}")
+        m += 1
+    for v in (-1, -5, NAT + 1):
+        real_u = np.array([v, 3], dtype="timedelta64[ms]").astype("uint64").tolist()
+        mine_u = Arr("timedelta64[ms]", (2,), [v, 3]).astype("uint64").flat
+        if real_u != mine_u:
+            raise AssertionError(f"uint64 cast of timedelta: numpy {real_u} model {mine_u}")
+        for lib, arr in ((np, lambda x: np.array(x, dtype="timedelta64[ms]")), (NP, lambda x: NP.array(x, dtype="timedelta64[ms]"))):
+            try:
+                arr(real_u)
+                raise AssertionError(f"{lib}: a count beyond int64 was accepted into a timedelta array")
+            except OverflowError:
+                pass
         m += 1
     return {"numpy model vs real numpy through the real codec (arrays)": n, "float64 rounding of integers / timedelta division vs numpy": m}
